@@ -122,7 +122,7 @@ class Check(object):
                   assumptions=self.assumptions, wall_s=round(wall, 2),
                   violations=len(self.violations))
         os.makedirs(os.path.join(VERIF, 'evidence'), exist_ok=True)
-        if not self.args.replay:
+        if not self.args.replay and not os.environ.get('VERIF_NO_EVIDENCE'):
             with open(os.path.join(VERIF, 'evidence', self.pid + '.json'),
                       'w') as fp:
                 json.dump(ev, fp, indent=1, default=str)
